@@ -565,9 +565,11 @@ def queryTypeOf (e : Endpoint) : Option QueryType := queryTypes.find? fun q => q
 /-- hypothesis of the model (`acquire` needs `lockOf key = lk`), decided for every endpoint of the current source -/
 theorem keys_determined : endpoints.all (fun e => (queryTypeOf e).any (lockDetermined e)) = true := by decide
 
-/-- every lock is released by a deferred unlock of the same key, and the job is queued and awaited under the lock -/
+/-- every lock is released by a deferred unlock of the same key, no lock call sits under a condition inside its function
+(every question takes its lock on every path), and the job is queued and awaited under the lock -/
 theorem locks_released_and_ordered :
     endpoints.all (fun e => e.locks.all (·.deferredUnlock)) = true ∧
+    endpoints.all (fun e => e.locks.all (·.guard == "")) = true ∧
     endpoints.map (·.order) =
       [["lock", "defer-unlock", "enqueue", "receive"],
        ["lock", "defer-unlock", "lock", "defer-unlock", "enqueue", "receive"],
